@@ -11,7 +11,7 @@ repo=Repo()
 from contracts.schema import TREE_INVARIANTS
 e=Engine(repo,TREE_SCHEMA,api.CONTRACTS,api.SPECS,TREE_INVARIANTS)
 frs=[]
-for k in sys.argv[2:]:
+for k in [a for a in sys.argv[2:] if a != "-v"]:
     fr=e.verify_function(k); frs.append(fr)
     print(k,'paths',len(fr.paths),'unsupported:',fr.unsupported)
     if fr.unsupported_trace and '-v' in sys.argv: print(fr.unsupported_trace[-1200:])
